@@ -124,7 +124,13 @@ class PathEnum(object):
         if k == "use":
             return self.operand(env, rv["op"])
         if k in ("ref", "rawptr", "copy_for_deref"):
-            return self.place(env, rv["place"])
+            pl = rv["place"]
+            if k != "copy_for_deref" and rv.get("bk") in ("mut", "Mut") and not pl["p"]:
+                cur = env.get(pl["l"])
+                if cur is not None and cur[0] in ("int", "const"):
+                    # a scalar local handed out by `&mut`: later reads may see another value
+                    env[pl["l"]] = ("cell", pl["l"])
+            return self.place(env, pl)
         if k == "cast":
             return ("cast", rv["kind"].split("(")[0], self.operand(env, rv["op"]))
         if k == "binop":
